@@ -5,8 +5,8 @@ Spec      : spec/Rewrites.tla defines the six rewrites as functions on PestAst a
             modifier chains, stack operations), every site, every kind and every input, Outcome is unchanged - the relation is valid
             for pest's semantics, including inside atomic rules, predicates, PUSH and trivia rules.
 Spec->code: for the bundled real-world grammars (JSON, TOML, SQL, HTTP, JSONPath, calculators, lists, INI, CSV, examples/json) the
-            exported AST is handed to TLC, which enumerates all sites and applies the requested (site, kind) rewrites, singly and in
-            pairs, with the SAME functions; the harness prints each rewritten grammar and compares original and rewritten through the
+            exported AST is handed to TLC, which enumerates all sites and applies the requested (site, kind) rewrites, singly, in pairs
+            and nested (one around the other at the same site), with the SAME functions; the harness prints each rewritten grammar and compares original and rewritten through the
             real library on corpus files, suite inputs and seeded mutations, in four modes: equal tree (tags included) or both fail.
 """
 
@@ -27,6 +27,15 @@ from .c09 import write_cfg
 
 KINDS = ["grp", "assoc", "extract", "dup", "never", "notnever", "dup0", "never0", "notnever0"]
 _pest = None
+_STACK_LEAVES = {"peek", "peekall", "peekslice", "pop", "popall", "drop", "pushlit"}
+_LEAVES = _STACK_LEAVES | {"str", "istr", "range", "any", "soi", "eoi", "cls", "cset"}
+
+
+def _at(e, path):
+    """The sub-expression at a Rewrites.tla path (1-based child indices; Kids = es of seq/alt, e of the unary nodes)."""
+    for i in path:
+        e = e["es"][i - 1] if e["k"] in ("seq", "alt") else e["e"]
+    return e
 
 
 def _init():
@@ -149,6 +158,17 @@ def run(tier: str) -> int:  # noqa: PLR0912, PLR0915
             if same and (p1[: len(p2)] == p2 or p2[: len(p1)] == p1):
                 continue
             reqs.append({"id": len(reqs), "name": name, "steps": [{"rule": s1["rule"], "path": p1, "kind": k1}, {"rule": s2["rule"], "path": p2, "kind": k2}]})
+        # nested: a second rewrite wrapped around the result of the first AT THE SAME SITE (RewriteAll applies the steps in order and
+        # a rewrite at path p leaves an expression at p), e.g. (((DROP | DROP) ~ NEVER) | (DROP | DROP)): two backtracking scopes
+        # opened at the same position and stack height, the inner one committing what the outer one abandons.  Only at leaves
+        # that are not rule references (evaluating a leaf four times costs nothing; a recursive rule would double per level);
+        # every stack terminal gets all nine (inner, outer) spellings of dup / never / notnever.
+        leaves = [s for s in ss if _at(gasts[name][s["rule"]]["body"], s["path"]).get("k") in _LEAVES]
+        nested = [(s, k1, k2) for s in leaves if _at(gasts[name][s["rule"]]["body"], s["path"])["k"] in _STACK_LEAVES for k1 in ("dup", "never", "notnever") for k2 in ("dup", "never", "notnever")]
+        nk = [k for k in KINDS if k != "assoc"]
+        nested = nested[: per] + [(s, rnd.choice(nk), rnd.choice(nk)) for s in rnd.sample(leaves, min(per // 4, len(leaves)))]
+        for s, k1, k2 in nested:
+            reqs.append({"id": len(reqs), "name": name, "steps": [{"rule": s["rule"], "path": s["path"], "kind": k1}, {"rule": s["rule"], "path": s["path"], "kind": k2}]})
     rf = d / f"c08_requests_{os.getpid()}.ndjson"
     with rf.open("w") as fh:
         for r in reqs:
@@ -190,7 +210,7 @@ def run(tier: str) -> int:  # noqa: PLR0912, PLR0915
     rep.distinct_count = len(reqs)
     rep.exhaustive = False
     rep.rule = (
-        "spec level: every site x 6 kinds x all inputs on sampled family grammars (TLC RewriteNeutral); code level: a case = one rewritten bundled grammar (one or two rewrites at TLC-enumerated sites, "
+        "spec level: every site x 6 kinds x all inputs on sampled family grammars (TLC RewriteNeutral); code level: a case = one rewritten bundled grammar (one rewrite, two at unrelated sites, or two nested at one leaf site - TLC-enumerated sites, "
         f"seeded sample of {per} singles + pairs per grammar) compared with the original on corpus/suite inputs and mutations x four modes"
     )
     rep.assumptions = ["NEVER = the literal U+10FFFD, absent from every input", "failure positions are not compared (the NEVER kinds legitimately add a later failed attempt)", "parse results are compared from start_pos 0"]
